@@ -84,12 +84,39 @@ CLAIMED = {
             "start / end A2.2 returns (1,0,..,0) / (0,..,0,1) and the evaluated point is the first / last active control point; rational coefficients N_i w_i / sum are non-negative and sum to one. "
             "Model function boundingBox tied to the bbox property by exact correspondence; the exact oracle checks hull (axes + random directions), bbox, clamped ends on curves, surfaces, volumes, rational or not.",
             "Not proved: surface / volume hull theorems as statements about surfacePointAt / volumePointAt; curve length bounds (floating point sqrt, oracle only)."),
+    'C09': ("7/C09",
+            "Lean theorems (23, all discharged): the list helpers combine / separate / generate_* are mutually inverse; for EVERY history of the three setters, the three reads and reverse the views "
+            "satisfy ctrlptsw = combine(ctrlpts, weights) (invariant by induction over the op list); setter round trips; bspline_to_nurbs / nurbs_to_bspline; unit weights evaluate identically and a common "
+            "weight factor c != 0 moves no point (curve, surface, volume); the weighted grid applies each point's own weight and its cache is consistent; refutations by decide of the pinned GridWeighted and reverse. "
+            "Tied to NURBS.* setters/getters, compatibility.*, convert.*, CPGen.GridWeighted by exact correspondence on object scripts.",
+            "Model = repaired code (F-09, F-12a fixed by fix: commits after the check reported them with replays). Evaluation theorems are about the model evaluators on a given non-empty span; scripts keep the point count fixed "
+            "(zip truncation in the setters is compared with the model but not judged)."),
+    'C13': ("7/C13",
+            "Lean theorems (29, all discharged) over an arbitrary point type, for all sizes and degrees: the flat layout v + sv*(u + su*w) is a bijection with explicit inverse; ctrlpts2d getter/setter, the control-point "
+            "managers, flips, extraction of iso-curves / iso-surfaces all address flatIdx; the two flips are mutually inverse; transpose is an involution with S^T(v,u) = S(u,v); extract-then-construct is the identity "
+            "for surfaces (both directions) and volumes (all three directions, repaired code); sweep boundary sections are the input and its translate; kernel-checked refutations of the pinned construct_volume('u'|'v') "
+            "and sweep_vector(curve). Tied to construct.*, sweeping.sweep_vector, operations.transpose/flip, ctrlpts2d, control_points managers by exact correspondence (27 op kinds) plus an exact oracle on the public API.",
+            "Model mirrors the repaired code (F-13a, F-13b fixed by fix: commits after the check reported them with replays). Boundary iso-curve identity, the weight split/recombine and knot-vector validation are oracle-only; "
+            "transpose leaves sample sizes unswapped (recorded observation, not checked)."),
+    'C17': ("7/C17",
+            "Lean theorems: binary span search = linear span search (termination included) for every degree / knots / parameter under the tolerance hypothesis that F-17b violates; span search, A2.2 and curve evaluation are "
+            "invariant under an increasing affine map of knots and parameter (normalised vs original knot range); an LRU cache of ANY capacity is transparent for EVERY call history (the contract behind GEOMDL_CACHE_SIZE); "
+            "both evaluator families are tied to one model function (C02). Correspondence: objects built with find_span_binsearch and with normalize_kv=True on affine knot ranges against the same model lines; the harness "
+            "imports the package in sub-interpreters under GEOMDL_CACHE_SIZE in {unset,1,16,1024} and runs tessellation / voxelisation with num_procs in {1,2,4,8}, comparing results.",
+            "Runtime parts (process pools, functools.lru_cache itself, environment) cannot be exhibited by a theorem: they are compared by the harness in floating point only. F-17a (import fails when GEOMDL_CACHE_SIZE is set) was "
+            "reported with a replay and fixed; F-17b and F-01 are recorded findings reported by C03 / C01."),
+    'C19': ("7/C19",
+            "Lean theorems (15, all discharged): the repaired == is reflexive, symmetric for equal tolerance, a deep copy equals its source; eqShape_iff: on well-formed shapes equality holds exactly when kind, rationality, "
+            "sizes and degrees match and every knot and homogeneous coordinate is within tolerance; changing a single net coordinate / weight / knot by more than the tolerance or a degree makes the shapes unequal; refutations of the pinned "
+            "behaviour by decide. Tied to a == b, b == a, a != b on BSpline/NURBS Curve/Surface/Volume pairs (identical, deep copies, perturbations at 1/2 .. 10 times the tolerance, structural differences) by exact correspondence.",
+            "Model = repaired __eq__ (F-19 fixed by a fix: commit after the check reported it with a replay); tolerance = value of 10 ** (-precision) passed to the model by the harness; mixed-precision pairs (asymmetric ==) are compared "
+            "with the model but not judged; copy.deepcopy itself is checked by the oracle only."),
     'C03': ("7/C03",
             "Lean theorems over the executable model (any degree, any non-decreasing knot function, any parameter, any ordered field): "
-            "linear span search returns the unique half-open interval; A2.2 has p+1 non-negative values summing to 1 and equals the Cox-de Boor "
+            "linear span search returns the unique half-open interval; binary search (termination included) equals linear search under the tolerance hypothesis that F-17b violates (refuted without it by decide +kernel); A2.2 has p+1 non-negative values summing to 1 and equals the Cox-de Boor "
             "recursion with local support; all-degrees table index theorem. Model tied to helpers.find_span_*/basis_function*/knotvector.* by exact "
             "correspondence; binary search, A2.3/A2.4/A2.5 and the knot-vector utilities are covered by correspondence + exact oracle only (listed as partial in the evidence).",
-            "Not proved yet: binary search = linear search; A2.4/A2.5; derivative rows sum to zero."),
+            "Not proved yet: A2.4/A2.5; derivative rows sum to zero (oracle + correspondence). F-17b is a recorded finding."),
 }
 NOT_YET = {}
 for i in range(1, 21):
